@@ -135,7 +135,9 @@ def encode_command_string(bcp_command, **kwargs) -> str:
     kwarg_string = kwarg_string[:-1]
 
     if json_needed:
-        kwarg_string = 'json={}'.format(json.dumps(kwargs, cls=MpfJSONEncoder))
+        # The JSON form is not percent-encoded. Write '&' as its JSON escape so that a string can never contain
+        # the '&bytes=' which announces a binary payload to read_message(); every JSON parser turns it back.
+        kwarg_string = 'json={}'.format(json.dumps(kwargs, cls=MpfJSONEncoder).replace('&', '\\u0026'))
 
     return str(urlunparse(('', '', bcp_command, '', kwarg_string, '')))
 
